@@ -3,12 +3,13 @@
 # applies the patch to a throw-away copy of /repo, runs the pinned suite and the quick checks against the copy
 set -u
 patch=$(realpath "$1"); shift
+root=$(cd "$(dirname "$0")/.." && pwd)
 d=$(mktemp -d /tmp/chi_mut.XXXXXX)
 trap 'rm -rf "$d"' EXIT
 cp -r /repo/chi /repo/setup.py "$d"/ 2>/dev/null
 ( cd "$d" && git init -q . && git add -A >/dev/null && git -c user.email=a@b -c user.name=x commit -qm base >/dev/null && git apply --whitespace=nowarn "$patch" ) || { echo "patch does not apply"; exit 3; }
-if [ "${SKIP_BASELINE:-0}" != 1 ]; then /verif/tools/baseline.py "$d" | head -5; fi
+if [ "${SKIP_BASELINE:-0}" != 1 ]; then "$root"/tools/baseline.py "$d" | head -5; fi
 for id in "$@"; do
   echo "== $id on mutant"
-  CHI_SRC="$d" /verif/check "$id" ${NOAUDIT:+--no-audit} 2>&1 | grep -v "^\s*\[\|consider\|omit\|Note\|^$\|conda" | tail -${TAILN:-6}
+  CHI_SRC="$d" "$root"/check "$id" ${NOAUDIT:+--no-audit} 2>&1 | grep -v "^\s*\[\|consider\|omit\|Note\|^$\|conda" | tail -${TAILN:-6}
 done
